@@ -143,6 +143,26 @@ func runC17(in *Sx) *Sx {
 			c17do(r, q)
 		})
 	}
+	// (pre 1): a HEAD request for the first route comes first; (pre 2): a request whose XML document cannot be
+	// encoded (a func field after 5000 bytes of text) comes first.  Neither is judged: what follows must not notice.
+	if p := in.Field("pre"); p != nil && p.Args()[0].Atom != "0" {
+		f.Get("/poison", func(r flamego.Render) {
+			r.XML(200, struct {
+				A string
+				F func()
+			}{A: strings.Repeat("stale-", 900), F: func() {}})
+		})
+		m, path := "HEAD", "/r0"
+		if p.Args()[0].Atom == "2" {
+			m, path = "GET", "/poison"
+		} else {
+			f.Head("/r0", func(c flamego.Context, r flamego.Render) { c17do(r, reqs[0]) })
+		}
+		func() {
+			defer func() { _ = recover() }()
+			f.ServeHTTP(&wireWriter{hdr: http.Header{}}, &http.Request{Method: m, URL: &url.URL{Path: path}, Header: http.Header{}, Proto: "HTTP/1.1"})
+		}()
+	}
 	var outs []*Sx
 	for i, q := range reqs {
 		if nested && i == 1 {
@@ -202,7 +222,7 @@ func genC17(rng *rand.Rand, n int, tier string, emit func(*Sx)) {
 			}
 		}
 		emit(T("in", T("charset", X([]string{"", "", "utf-8", "iso-8859-1", "gbk", "UTF-8", "Shift_JIS"}[rng.Intn(7)])), T("jindent", X([]string{"", "", "  ", "\t"}[rng.Intn(4)])),
-			T("xindent", X([]string{"", "", "  ", "\t"}[rng.Intn(4)])), T("early", B(rng.Intn(12) == 0)), T("nested", B(rng.Intn(3) == 0)), T("prect", B(rng.Intn(4) == 0)), T("outer", B(rng.Intn(4) == 0)), T("reqs", reqs...)))
+			T("xindent", X([]string{"", "", "  ", "\t"}[rng.Intn(4)])), T("early", B(rng.Intn(12) == 0)), T("nested", B(rng.Intn(3) == 0)), T("prect", B(rng.Intn(4) == 0)), T("outer", B(rng.Intn(4) == 0)), T("pre", I([]int{0, 0, 0, 1, 2}[rng.Intn(5)])), T("reqs", reqs...)))
 	}
 }
 
